@@ -16,7 +16,7 @@ MANIFEST = dict(
          "the lock is held for at most retry x (timeout + 100 ms + pause) (holder_time_bounded, potential-function invariant) and a free lock with parked callers is handed "
          "over before time passes. Tie = trace validation: real GeckoAsyncUdpProtocol.get with seeded concurrent callers of mixed retry/timeout on the virtual-time loop, "
          "scripted replies (prompt / late / never / wrong verb); every observed call, lock hand-off, poll, send, pause end and return must be enabled in the model and "
-         "agree with its send log and results. Gating is checked on the real GeckoAsyncSpa entry points. Session 4: an arrival-order monitor (no later caller is transmitted while an earlier caller has not completed). The lock shape of get() is a theorem over its regenerated suspension skeleton (get_lock_shape: every transmission while the caller holds the lock, the lock taken once per call, for every trace). Also the multi-segment request (GeckoAsyncStructure.get): every attempt consumes retry budget in both gets (every_attempt_consumes_budget over the regenerated skeletons) and the partial-loss pattern (a middle segment lost every time, the final one arriving) is driven on the real code. The answering-pings gate is searched with the real ping loop against a spa that stops answering, after silences of 150 s to two days (a week in the thorough tier), on a virtual clock that also drives time.time and datetime.now.",
+         "agree with its send log and results. Gating is checked on the real GeckoAsyncSpa entry points. Session 4: an arrival-order monitor (no later caller is transmitted while an earlier caller has not completed). The lock shape of get() is a theorem over its regenerated suspension skeleton (get_lock_shape: every transmission while the caller holds the lock, the lock taken once per call, for every trace). Also the multi-segment request (GeckoAsyncStructure.get): every attempt consumes retry budget in both gets (every_attempt_consumes_budget over the regenerated skeletons) and the partial-loss pattern (a middle segment lost every time, the final one arriving) is driven on the real code. The answering-pings gate is searched with the real ping loop against a spa that stops answering, after silences of 150 s to two days (a week in the thorough tier), on a virtual clock that also drives time.time and datetime.now. A query whose replies are all lost while the spa keeps sending unsolicited partial updates (the connection`s consumers running); request_clock_is_the_handlers_own.",
     note="partial: time bounds hold under the fairness hypothesis (no event-loop stall), with one polling interval of slack per attempt; asyncio.Lock FIFO hand-off and "
          "'no pre-emption between awaits' are assumed (exercised by the traces). Known finding D12: the connected/ping gates are evaluated once at call entry, so a call "
          "parked on the lock can transmit after pings have gone stale.",
@@ -430,6 +430,58 @@ def search_gate_silence(ctx):
     ctx.cov["gate_silence_checks"] = {k: v for k, v in out.items() if k.startswith("silent:")}
 
 
+def search_chatter(ctx):
+    """a query whose every reply is LOST while the spa keeps sending unsolicited (framed) partial updates, with the connection's own
+    long-lived consumers running as `_connect` starts them: the query still gives up after its retries, within
+    retry x (timeout + poll + pause), and the ping queued behind it is then served"""
+    import geckolib.config as cfg
+    from geckolib.const import GeckoConstants
+    from geckolib.driver import GeckoPacketProtocolHandler, GeckoUnhandledProtocolHandler
+    from geckolib.driver.protocol.statusblock import GeckoAsyncPartialStatusBlockProtocolHandler
+    out = {}
+
+    async def body(loop):
+        spa, ft, answering, ping, entry = await _gate_rig(loop)
+        proto = spa._protocol
+        desc_id = spa.descriptor.identifier
+        tasks = [asyncio.ensure_future(GeckoUnhandledProtocolHandler().consume(proto)),
+                 asyncio.ensure_future(GeckoPacketProtocolHandler(async_on_handled=spa._async_on_packet).consume(proto)),
+                 asyncio.ensure_future(GeckoAsyncPartialStatusBlockProtocolHandler(proto, async_on_handled=spa._async_on_partial_status_update).consume(proto))]
+        await asyncio.sleep(70)                      # pings are being answered
+        T = cfg.GeckoConfig.PROTOCOL_TIMEOUT_IN_SECONDS
+        P = cfg.GeckoConfig.PAUSE_BETWEEN_RETRIES_IN_SECONDS
+        R = cfg.GeckoConfig.PROTOCOL_RETRY_COUNT
+        bound = R * (T + 0.2 + P) + 2.0
+
+        async def chatter():
+            k = 0
+            while True:
+                await asyncio.sleep(T / 3.0)
+                k += 1
+                proto.datagram_received(rig.frame(desc_id, b"IOSclient", b"STATP\x01\x00" + bytes([40 + k % 50, k % 256, 7])), ADDR)
+        ch = asyncio.ensure_future(chatter())
+        t0 = loop.time()
+        n0 = len(ft.sent)
+        q = asyncio.ensure_future(spa.async_get_watercare())
+        done, pend = await asyncio.wait([q], timeout=bound + 30)
+        out["finished_after_s"] = round(loop.time() - t0, 2) if not pend else None
+        out["bound_s"] = round(bound, 2)
+        out["getwc_transmissions"] = len([x for x in ft.sent[n0:] if b"GETWC" in x[1]])
+        out["retry_count"] = R
+        pings0 = len([x for x in ft.sent if b"APING" in x[1]])
+        await asyncio.sleep(2 * cfg.GeckoConfig.PING_FREQUENCY_IN_SECONDS + 10)
+        out["pings_after"] = len([x for x in ft.sent if b"APING" in x[1]]) - pings0
+        for t in tasks + [ch, ping, q]:
+            t.cancel()
+    vloop.run_virtual(body)
+    ctx.count("evaluations")
+    ctx.cov["chatter_scenario"] = out
+    if out.get("finished_after_s") is None or out["finished_after_s"] > out["bound_s"] or out["getwc_transmissions"] > out["retry_count"] or out["pings_after"] < 1:
+        ctx.violation("chatter:query-does-not-give-up", {"kind": "chatter"},
+                      f"the query finishes within {out.get('bound_s')} s after at most {out.get('retry_count')} transmissions, and later callers (the ping) are served",
+                      out)
+
+
 def search_struct_get(ctx):
     """the multi-segment request (GeckoAsyncStructure.get: one STATU answered by a chain of STATV segments, under the same
     connection lock): attempts that end WITHOUT a timeout - a middle segment lost every time, the final one arriving out of
@@ -506,6 +558,7 @@ def run(ctx):
         ctx.sample({"validator_summary": [o for o in out if o.startswith("end")][:3]})
     search_gate(ctx)
     search_gate_silence(ctx)
+    search_chatter(ctx)
     search_struct_get(ctx)
     ctx.cov["distinct_nontrivial"] = len(nontrivial)
     ctx.cov["rule"] = ("each run = 1..8 (thorough ..20) concurrent callers of the real protocol.get with seeded arrival times, retry in {1,2,3,10}, timeout in {0.35,1.05,4.05} s (+0.5 ms in the real handler, so that no floating-point tie on a whole millisecond decides a timeout; the model's strict > on whole ms is then exact), "
@@ -549,6 +602,8 @@ def replay(inp):
         monitors(ctx, sc, res, inp["fair"], inp)
     elif inp.get("kind") == "struct-get":
         search_struct_get(ctx)
+    elif inp.get("kind") == "chatter":
+        search_chatter(ctx)
     elif inp.get("kind") == "gate-silence":
         search_gate_silence(ctx)
     else:
